@@ -147,7 +147,7 @@ def layer_mass_below(b):
             rec["mass_below"] = mass_below
             return None
         o = Obj(cls, layer_index=sp.Integer(idx), world=world, use_tidal_vol_frac=False)
-        ex = Exec(mfn, contracts={".super.set_geometry": Contract(".super.set_geometry", None, None, result=super_geo)})
+        ex = Exec(mfn, contracts={"=super.set_geometry": Contract("=super.set_geometry", None, None, result=super_geo)})
         try:
             paths = ex.run(dict(self=o, radius=R("radius"), mass=R("mass"), thickness=R("thickness")))
         except SymExError as e:
